@@ -416,7 +416,11 @@ func (s *Service) handleConn(conn net.Conn) {
 			s.processRemoveHintedHandoffRequest(conn)
 			return
 		default:
+			// The length and the payload of a frame of unknown type follow on the
+			// stream. Reading on would take bytes from the middle of that frame for
+			// message types and execute them; give up on the connection instead.
 			s.Logger.Warn("Coordinator service message type not found", zap.Uint8("Type", typ))
+			return
 		}
 	}
 }
